@@ -433,3 +433,125 @@ def c11(tier, seed):
 
 
 RUN["C11"] = c11
+
+
+# --------------------------------------------------------------------------- C12
+
+
+def _subsets(u):
+    out = ["-"]
+    for k in range(len(u) + 1):
+        for c in itertools.combinations(u, k):
+            out.append(list(c))
+    return out
+
+
+def c12_rows(universe):
+    from mosaik.in_or_out_set import OutSet
+    from mosaik.scenario import parse_attrs
+
+    W = list(universe) + ["z"]
+    subs = _subsets(universe)
+    rows = []
+    for typ in ("time-based", "event-based", "hybrid"):
+        for any_ in (False, True):
+            for attrs in subs:
+                for tr in subs:
+                    for nt in subs:
+                        for ps in subs:
+                            for np_ in subs:
+                                desc = {}
+                                for key, val in (("attrs", attrs), ("trigger", tr), ("non-trigger", nt), ("persistent", ps), ("non-persistent", np_)):
+                                    if val != "-":
+                                        desc[key] = list(val)
+                                if any_:
+                                    desc["any_inputs"] = True
+                                vals = {"attrs": attrs, "tr": tr, "nt": nt, "ps": ps, "np": np_}
+                                row = {"type": typ, "any": any_, "has": {k: v != "-" for k, v in vals.items()}}
+                                row.update({k: ([] if v == "-" else list(v)) for k, v in vals.items()})
+                                try:
+                                    r = parse_attrs(desc, typ)
+                                    row["ok"] = True
+                                    for name, s in zip(("rnt", "rtr", "rps", "rnp"), r):
+                                        row[name] = [x for x in W if x in s]
+                                except ValueError:
+                                    row.update({"ok": False, "rnt": [], "rtr": [], "rps": [], "rnp": []})
+                                rows.append(row)
+    return rows
+
+
+def c12_algebra(universe):
+    from mosaik.in_or_out_set import OutSet
+
+    W = list(universe) + ["z"]
+    sets = []
+    for k in range(len(universe) + 1):
+        for c in itertools.combinations(universe, k):
+            sets.append(({"co": False, "s": list(c)}, frozenset(c)))
+            sets.append(({"co": True, "s": list(c)}, OutSet(c)))
+
+    def enc(v):
+        if isinstance(v, OutSet):
+            return {"co": True, "s": sorted(v._set)}
+        return {"co": False, "s": sorted(v)}
+
+    rows = []
+    import operator
+
+    for xr, x in sets:
+        for e in W:
+            rows.append({"x": xr, "y": xr, "op": "in", "ok": True, "b": e in x, "e": e, "r": xr})
+        for yr, y in sets:
+            for op, fn in (("or", operator.or_), ("and", operator.and_), ("sub", operator.sub)):
+                try:
+                    rows.append({"x": xr, "y": yr, "op": op, "ok": True, "b": False, "e": "z", "r": enc(fn(x, y))})
+                except Exception:  # noqa: BLE001
+                    rows.append({"x": xr, "y": yr, "op": op, "ok": False, "b": False, "e": "z", "r": xr})
+            rows.append({"x": xr, "y": yr, "op": "eq", "ok": True, "b": bool(x == y), "e": "z", "r": xr})
+    return rows
+
+
+def _judge_c12(part):
+    rows, algebra, universe = part
+    return _judge_rows("Attrs", "R12", {"rows": rows, "algebra": algebra, "universe": list(universe)})
+
+
+def c12(tier, seed):
+    import concurrent.futures as cf
+
+    t0 = time.time()
+    universe = ("a", "b") if tier == "quick" else ("a", "b", "c")
+    rows = c12_rows(universe)
+    algebra = c12_algebra(universe)
+    t1 = time.time()
+    size = 4000 if tier == "quick" else 8000
+    parts = [(rows[i:i + size], algebra if i == 0 else [], universe) for i in range(0, len(rows), size)]
+    with cf.ThreadPoolExecutor(max_workers=14) as ex:
+        results = list(ex.map(_judge_c12, parts))
+    findings, states, trans = [], 0, 0
+    for pi, (viol, st, secs) in enumerate(results):
+        states += st["distinct"]
+        trans += st["generated"]
+        nchunks = (len(parts[pi][0]) + 999) // 1000
+        for clause, n in viol:
+            is_alg = clause.startswith("C12_set_")
+            row = (algebra if is_alg else parts[pi][0])[n]
+            findings.append(checklib.Finding("C12", clause, case={"id": [clause, pi, n], "kind": "c12", "row": row}, detail=json.dumps(row), extra={"row": row}))
+    import collections
+
+    cov = {
+        "states": states, "transitions": trans, "traces_validated_against_impl": len(rows) + len(algebra),
+        "samples": [rows[1234], next(r for r in rows if r["ok"] and r["type"] == "hybrid" and r["has"]["tr"]), algebra[17]],
+        "evaluations": len(rows) + len(algebra), "distinct_nontrivial": len(rows) + len(algebra),
+        "rule": f"every model description with each of attrs / trigger / non-trigger / persistent / non-persistent absent or any subset of {list(universe)} "
+                f"x any_inputs x 3 simulator types ({len(rows)} descriptions; real parse_attrs; result sets compared by membership on the universe plus the witness 'z' "
+                f"for 'any other attribute'); plus every InOrOutSet expression x op y, op in |,&,-,==,in over the finite/co-finite sets over the same universe ({len(algebra)} rows)",
+        "exhaustive": True,
+        "accepted": sum(1 for r in rows if r["ok"]),
+        "record_secs": round(t1 - t0, 1),
+        "checker_cmd": "tlc -workers 1 -config Attrs.cfg Attrs (TRACE_FILE=<rows>)",
+    }
+    return checklib.conclude("C12", tier, seed, findings, cov, t0, ASSUME, max_report=3)
+
+
+RUN["C12"] = c12
